@@ -200,6 +200,31 @@ class SInt(V):
         return f"SInt({self.t})"
 
 
+class SBitInt(SInt):
+    """a non-negative int known bit by bit (flag packing): bits maps a bit position to a z3 Bool, all
+    other bits are 0.  Its term is the sum of the set bits, so it is an ordinary SInt everywhere else."""
+
+    __slots__ = ("bits",)
+
+    def __init__(self, bits):
+        self.bits = dict(bits)
+        terms = [z3.If(b, z3.IntVal(2 ** k), z3.IntVal(0)) for k, b in sorted(self.bits.items())]
+        SInt.__init__(self, z3.Sum(terms) if terms else z3.IntVal(0))
+
+
+def as_bits(v):
+    """bit view of a value if it has one (a bit-int, or the concrete ints 0 .. 2**64-1)"""
+    if isinstance(v, SBitInt):
+        return v.bits
+    if isinstance(v, SInt) and not isinstance(v, SBitInt):
+        s = z3.simplify(v.t)
+        if z3.is_int_value(s):
+            n = s.as_long()
+            if 0 <= n < 2 ** 64:
+                return {k: z3.BoolVal(True) for k in range(n.bit_length()) if (n >> k) & 1}
+    return None
+
+
 class SBool(V):
     kind = "bool"
     __slots__ = ("t",)
